@@ -125,7 +125,10 @@ def _run_one(args):
         tgt = m['property']
         exp_rule = m.get('rule')
         fired_tgt = res['fired'].get(tgt)
-        others = [p for p in res['fired'] if p != tgt and p not in m.get('also', [])]
+        # rules shared between properties (one necessary condition of several
+        # properties): firing in the sharing property is not cross-fire
+        shares = {'C10': ('C08', 'C15'), 'C08': ('C10', 'C15'), 'C15': ('C10', 'C08'), 'C19': ('C11',), 'C11': ('C19',)}
+        others = [p for p in res['fired'] if p != tgt and p not in m.get('also', []) and p not in shares.get(tgt, ())]
         if fired_tgt and (exp_rule is None or exp_rule in fired_tgt['rules']):
             res['status'] = 'caught' if not others else 'caught+crossfire'
         elif fired_tgt:
